@@ -22,7 +22,8 @@ ScOf(j) == [single   |-> [n \in Node |-> ToSet(j.single[n])],
             wrap     |-> [n \in Node |-> j.wrap[n]],
             fail     |-> [n \in Node |-> j.fail[n]],
             procs    |-> [p \in 1..Len(j.procs) |-> j.procs[p]],
-            mode     |-> [n \in Node |-> j.mode[n]]]
+            mode     |-> [n \in Node |-> j.mode[n]],
+            rorder   |-> [i \in 1..Len(j.rorder) |-> j.rorder[i]]]
 
 TraceScenarios == {ScOf(Trace[1].sc)}
 
@@ -54,6 +55,7 @@ TBefore  == IsEv("before") /\ TopIs(E.n) /\ E.ok = (sc.fail[E.n] # "before") /\ 
 TAps     == IsEv("aps") /\ TopIs(E.n) /\ E.ok = (sc.fail[E.n] # "aps") /\ APS
 TInit    == IsEv("init") /\ TopIs(E.n) /\ E.ok = (sc.fail[E.n] # "init") /\ InitCb
 TAfter   == IsEv("after") /\ TopIs(E.n) /\ E.ok = (sc.fail[E.n] # "after") /\ (AInit \/ SAfter)
+TRun     == IsEv("run") /\ E.ok = (sc.fail[E.n] # "run") /\ RunnerRun(E.n)
 TBinst   == IsEv("binst") /\ TopIs(E.n) /\ Shortcut
 TCheck   == IsEv("getNoEarly") /\ TopIs(E.n) /\ E.res = L2[E.n] /\ ~E.err /\ Check
 TCreateEnd == /\ IsEv("createEnd") /\ TopIs(E.n)
@@ -72,7 +74,7 @@ TReset == /\ IsEv("scenario")
 TraceInit == l = 2 /\ Init
 TraceNext ==
   /\ \/ TGet \/ TCreateBegin \/ TAddFactory \/ TResolve \/ TBefore \/ TAps \/ TInit \/ TAfter
-     \/ TCheck \/ TCreateEnd \/ TRunReturn \/ TLookupReturn \/ TProcInit \/ TBinst \/ TReset
+     \/ TCheck \/ TCreateEnd \/ TRunReturn \/ TLookupReturn \/ TProcInit \/ TBinst \/ TRun \/ TReset
   /\ (E.ev # "scenario" => StateMatchesP(E.st))
 TraceSpec == TraceInit /\ [][TraceNext]_<<vars, l>>
 
